@@ -166,9 +166,35 @@ fn serialise(tree: &Value, toml_fmt: bool) -> Option<String> {
 fn case(t0: &mut Tape, w: &Worker) -> CaseResult {
     let mut ot = t0.fork(200);
     let mut out = CaseOut::default();
-    let mut cs = gen::gen_conf_stream(t0, &ConfOpts { max_links: 4, max_hbfs: 3, big_16: 1, ..Default::default() });
-    let class = ot.weighted(&[2, 5]);
-    if class == 1 {
+    // class 2: ALPIDE-level faults on several staves at once, judged in stave mode (the only mode that names staves in its messages)
+    let class = ot.weighted(&[2, 5, 1]);
+    let mut cs = gen::gen_conf_stream(t0, &ConfOpts { max_links: if class == 2 { 6 } else { 4 }, min_links: if class == 2 { 2 } else { 1 }, max_hbfs: 3, big_16: 1, ..Default::default() });
+    if class == 2 {
+        let mut mt = t0.fork(300);
+        let mut hit = 0;
+        for link in cs.stream.links.iter_mut() {
+            // drop one data word (or flip one of its bits) in up to three packets of every link
+            let mut done = 0;
+            for p in link.packets.iter_mut() {
+                let idx: Vec<usize> = p.words.iter().enumerate().filter(|(_, w)| crate::model::is_data_id(w[9])).map(|(i, _)| i).collect();
+                if idx.is_empty() || done >= 3 {
+                    continue;
+                }
+                let wi = idx[mt.below(idx.len())];
+                if mt.chance(1, 2) {
+                    p.words.remove(wi);
+                } else {
+                    let bit = mt.below(72);
+                    p.words[wi][bit / 8] ^= 1 << (bit % 8);
+                }
+                p.fix_sizes();
+                done += 1;
+            }
+            hit += (done > 0) as usize;
+        }
+        gen::sanitize_layout(&mut cs.stream);
+        out.labels.push(format!("input:stave_faults(links hit: {})", hit.min(4)));
+    } else if class == 1 {
         let mut mt = t0.fork(300);
         let n = 1 + mt.below(10);
         gen::mutate_stream(&mut mt, &mut cs.stream, &MutOpts { protect_first: true, keep_framing: true, keep_layout: true }, n, &mut vec![]);
@@ -177,7 +203,7 @@ fn case(t0: &mut Tape, w: &Worker) -> CaseResult {
         out.labels.push("input:conforming".into());
     }
     let (bytes, lay) = cs.stream.encode();
-    let mode = *ot.pick(&ALL_MODES);
+    let mode = if class == 2 { Mode::AllItsStave } else { *ot.pick(&ALL_MODES) };
     let toml_fmt = ot.chance(1, 2);
     let mute = ot.chance(1, 3);
     let n = 1 + ot.below(255);
